@@ -42,6 +42,7 @@ AsmContext::AsmContext() :
   code_count             { 0 },
   error_count            { 0 },
   ifdef_count            { 0 },
+  include_count          { 0 },
   parsing_ifdef          { 0 },
   linker                 { nullptr },
   def_param_stack_count  { 0 },
@@ -96,6 +97,7 @@ void AsmContext::init()
   code_count        = 0;
   data_count        = 0;
   ifdef_count       = 0;
+  include_count     = 0;
   parsing_ifdef     = 0;
   bytes_per_address = 1;
   in_repeat         = 0;
